@@ -56,6 +56,11 @@ structure Ref where
   props : List (Nat × Option Nat) := []
   preEntities : Nat := 0
   bad : List Nat := []                   -- callbacks the SDK rejects (RB)
+  partialOK : List Nat := []             -- callbacks the SDK accepts WITH an error (RB naming own and foreign observables)
+  rej : List Nat := []                   -- (input) RB callbacks never invoked in this run: a registration naming own and
+                                         -- foreign observables is rejected as a whole when the foreign instrument's meter
+                                         -- has not been delegated yet (Go map order of the installer) — read off the observation
+  instMeter : List (Nat × Nat) := []     -- instrument → meter
   deadPre : List Nat := []               -- Unregister calls made before the installation began
   deadConc : List Nat := []              -- … while it was in progress
   colls : List (Nat × List Nat × Bool) := []  -- per OC / CC operation, newest first: cycles per reader, callbacks live
@@ -81,15 +86,18 @@ def containsOp (p : Op → Bool) (ops : List Op) : Bool := ops.any p
 /-- sequential reading of one operation; `sync` = the installation call returns in this thread (plain IM/IT) -/
 def refOp (G : Nat) (r : Ref) : Op → Ref
   | .M _ => r
-  | .K i _ kind => { r with kinds := (i, kind) :: r.kinds, preEntities := if r.mPh = .pre then r.preEntities + 1 else r.preEntities }
+  | .K i k kind => { r with instMeter := (i, k) :: r.instMeter, kinds := (i, kind) :: r.kinds, preEntities := if r.mPh = .pre then r.preEntities + 1 else r.preEntities }
   | .A i v =>
     match r.mPh with
     | .pre => r
     | .conc => { r with concVals := (i, v) :: r.concVals }
     | .post => { r with postVals := (i, v) :: r.postVals, seqLast := (i, v) :: r.seqLast }
   | .R c _ is => { r with cbs := (c, is) :: r.cbs, preEntities := if r.mPh = .pre then r.preEntities + 1 else r.preEntities }
-  | .RB c _ is => { r with cbs := (c, is) :: r.cbs, bad := c :: r.bad,
-                           preEntities := if r.mPh = .pre then r.preEntities + 1 else r.preEntities }
+  | .RB c k is =>
+    let own := is.filter fun i => ((r.instMeter.find? (·.1 == i)).map (·.2)) == some k
+    let pe := if r.mPh = .pre then r.preEntities + 1 else r.preEntities
+    if own.isEmpty || r.rej.contains c then { r with cbs := (c, own) :: r.cbs, bad := c :: r.bad, preEntities := pe }
+    else { r with cbs := (c, own) :: r.cbs, partialOK := c :: r.partialOK, preEntities := pe }
   | .U c => { r with dead := c :: r.dead,
                      deadPre := if r.mPh = .pre then c :: r.deadPre else r.deadPre,
                      deadConc := if r.mPh = .conc then c :: r.deadConc else r.deadConc }
@@ -156,7 +164,7 @@ def refTop (G : Nat) (r : Ref) : Op → Ref
               pPh := if hasP then .post else r.pPh, seqLast := [] }
   | op => refOp G r op
 
-def reference (G : Nat) (ops : List Op) : Ref := refTop G (ops.foldl (refTop G) {}) .F
+def reference (G : Nat) (ops : List Op) (rej : List Nat := []) : Ref := refTop G (ops.foldl (refTop G) { rej := rej }) .F
 
 /-- achievable (count, sum) pairs of sub-multisets -/
 def subsetPairs : List Nat → List (Nat × Nat)
@@ -205,8 +213,8 @@ handler (and nothing else is) -/
 def statusOK (r : Ref) (status : String) : Bool :=
   -- still registered when the installer reached it (never unregistered, or only after the installation): certainly
   -- forwarded and rejected; unregistered while the installation was in progress: either
-  let definite := r.bad.any fun c => !r.deadPre.contains c && !r.deadConc.contains c
-  let possible := r.bad.any fun c => !r.deadPre.contains c
+  let definite := (r.bad ++ r.partialOK).any fun c => !r.deadPre.contains c && !r.deadConc.contains c
+  let possible := (r.bad ++ r.partialOK).any fun c => !r.deadPre.contains c
   if r.mPh != .post then status == "ok"
   else if definite then status == "err:handled"
   else if possible then status == "ok" || status == "err:handled"
@@ -267,7 +275,7 @@ def nodupNat : List Nat → Bool
 
 /-- the oracle -/
 def globalOK (ops : List Op) (o : Obs) : Bool :=
-  let r := reference o.gates.length ops
+  let r := reference o.gates.length ops ((o.cbs.filter (·.2 == 0)).map (·.1))
   let syncIds := sortNat ((r.kinds.filter (·.2 < 8)).map (·.1))
   let obsvIds := sortNat ((r.kinds.filter (·.2 ≥ 8)).map (·.1))
   statusOK r o.status
